@@ -54,6 +54,20 @@ class TraitSetEvent(object):
         )
 
 
+def _as_removed(value):
+    """ Return the one-element "removed" set for a removed value.
+
+    Like the built-in set, accept a (mutable, hence unhashable) set as the
+    spelling of the frozenset member that it equals.
+    """
+    try:
+        return {value}
+    except TypeError:
+        if isinstance(value, set):
+            return {frozenset(value)}
+        raise
+
+
 @IObservable.register
 class TraitSet(set):
     """ A subclass of set that validates and notifies listeners of changes.
@@ -290,7 +304,7 @@ class TraitSet(set):
         super().discard(value)
 
         if value_in_self:
-            self.notify({value}, set())
+            self.notify(_as_removed(value), set())
 
     def difference_update(self, *args):
         """  Remove all elements of another set from this set.
@@ -363,7 +377,7 @@ class TraitSet(set):
         """
 
         super().remove(value)
-        self.notify({value}, set())
+        self.notify(_as_removed(value), set())
 
     def symmetric_difference_update(self, value):
         """ Update the set with the symmetric difference of itself and another.
